@@ -788,20 +788,24 @@ func (c *candidateBase) extensionsEqual(other []CandidateExtension) bool {
 	freq1 := make(map[CandidateExtension]int)
 	freq2 := make(map[CandidateExtension]int)
 
-	if len(c.extensions) != len(other) {
+	// other comes from Extensions(), which includes the synthetic tcptype
+	// entry, so compare against the same view of this candidate.
+	extensions := c.Extensions()
+
+	if len(extensions) != len(other) {
 		return false
 	}
 
-	if len(c.extensions) == 0 {
+	if len(extensions) == 0 {
 		return true
 	}
 
-	if len(c.extensions) == 1 {
-		return c.extensions[0] == other[0]
+	if len(extensions) == 1 {
+		return extensions[0] == other[0]
 	}
 
-	for i := range c.extensions {
-		freq1[c.extensions[i]]++
+	for i := range extensions {
+		freq1[extensions[i]]++
 		freq2[other[i]]++
 	}
 
